@@ -3,7 +3,7 @@
 set -eu
 P=$1; SLUG=$2; NEEDS=$3
 D=/verif/seeded/$P-$SLUG; mkdir -p $D
-cp /tmp/seed-$P/patch.diff $D/patch.diff; cp /tmp/seed-$P/demo.py $D/demo.py; cp /tmp/seed-$P/NOTES.md $D/NOTES.md
+SRC=${SEEDDIR:-/tmp/seed-}$P; cp $SRC/patch.diff $D/patch.diff; cp $SRC/demo.py $D/demo.py; cp $SRC/NOTES.md $D/NOTES.md
 /venv/bin/python - "$P" "$SLUG" "$NEEDS" "$D" <<'PY'
 import json,sys
 p,slug,needs,d=sys.argv[1:5]
